@@ -110,17 +110,19 @@ func c06Prelude(s c06Sess, ps []c06Pfx) [][]byte {
 		}
 		c := c06GoodAttr(c06TComm, s.pt)
 		c.val = c06U32(c06Marker)
-		return append(as, c)
+		as = append(as, c)
+		c06ForSession(s, as)
+		return as
 	}
 	var out [][]byte
 	if len(v4) > 0 {
-		m := &c06Msg{addPath: s.addPath, wdrLenField: -1, attrLenField: -1, nlri: v4}
+		m := &c06Msg{addPath: s.ap4(), wdrLenField: -1, attrLenField: -1, nlri: v4}
 		m.attrs = append(common(), c06GoodAttr(c06TNextHop, s.pt))
 		out = append(out, m.bytes())
 	}
 	if len(v6) > 0 {
-		m := &c06Msg{addPath: s.addPath, wdrLenField: -1, attrLenField: -1, reach: v6}
-		m.attrs = append(common(), c06Attr{flags: 0x80, typ: c06TMPReach, lenField: -1, val: c06MPReachVal(2, c06IP(c06V6NH), v6, s.addPath)})
+		m := &c06Msg{addPath: s.ap6(), wdrLenField: -1, attrLenField: -1, reach: v6}
+		m.attrs = append(common(), c06Attr{flags: 0x80, typ: c06TMPReach, lenField: -1, val: c06MPReachVal(2, c06IP(c06V6NH), v6, s.ap6())})
 		out = append(out, m.bytes())
 	}
 	return out
@@ -352,6 +354,18 @@ func c06L2Session(t *testing.T, rec *vlib.Rec, idx int, c *c06Case) (obs *c06Obs
 		}
 		synctest.Wait()
 	}
+	var tr *c06Pfx
+	if c.pipe != nil {
+		tr = &trailer
+	}
+	return c06Observe(rec, idx, n, inj, third, c, by, tr), true
+}
+
+// c06Observe reads off, at quiescence, what the message under test did: NOTIFICATION, session state, adj-in /
+// global table of the injecting peer, the third speaker's view (by: bystander prefixes that must stay; trailer:
+// prefix of a well-formed UPDATE written behind the message that must have been processed if the session lives).
+func c06Observe(rec *vlib.Rec, idx int, n *simNet, inj, third *simSpeaker, c *c06Case, by []string, trailerP *c06Pfx) *c06Obs {
+	s, m := c.sess, c.msg
 	o := &c06Obs{label: -1, state: map[string]c06PState{}, attrs: map[string][]bgp.PathAttributeInterface{}}
 	inj.mu.Lock()
 	nf := inj.notif
@@ -369,8 +383,8 @@ func c06L2Session(t *testing.T, rec *vlib.Rec, idx int, c *c06Case) (obs *c06Obs
 	adj, _ := c06List(n, api.TableType_TABLE_TYPE_ADJ_IN, c06PeerAddr, s.addPath)
 	glob, _ := c06List(n, api.TableType_TABLE_TYPE_GLOBAL, "", s.addPath)
 	view := c06ObserverView(third)
-	if c.pipe != nil && !o.reset {
-		if tp, in := adj[trailer.key(s.addPath)]; !in || !c06HasMarker(tp.Attrs) {
+	if trailerP != nil && !o.reset {
+		if tp, in := adj[trailerP.key(s.addPath)]; !in || !c06HasMarker(tp.Attrs) {
 			o.dead = true
 		}
 	}
@@ -432,7 +446,7 @@ func c06L2Session(t *testing.T, rec *vlib.Rec, idx int, c *c06Case) (obs *c06Obs
 		rec.Violation(key,
 			fmt.Sprintf("end to end, %s session, faults %s: adj-in, global table and the third peer's view disagree: %s", s, c.faultIDs(), strings.Join(third3, "; ")), c.witness(idx, o))
 	}
-	return o, true
+	return o
 }
 
 // c06PickCase draws an applicable (base, position) for the faults on the session, preferring bases
